@@ -32,8 +32,8 @@ POOL = {
                 [1.0, 2.01], [-1e-6, 0], [0, 5e-7], [1.5, 25.0],
                 [1.52, 5.0]],
     "segment": [0, 1],
-    "weight_cp": [0, 1e-7, 5e-7, 1e-6, 2e-6],
-    "gcf_k": [1.0, 0.5, 2.0, 0.6135],
+    "weight_cp": [0, 1e-7, 5e-7, 1e-6, 2e-6, 5e-9, 2.00001e-6],
+    "gcf_k": [1.0, 0.5, 2.0, 0.6135, 0.500004],
     "x_axis": ["tip position", "height (measured)"],
     "y_axis": ["force"],
     "method": ["leastsq", "nelder", "least_squares"],
@@ -67,6 +67,7 @@ PARAM_EDITS = [
     ("nu", "expr", ["0.5", ""]),
     ("baseline", "expr", ["0.0", "contact_point*0", ""]),
     ("virtual_parameter", "value", [10.0, 20.0]),
+    ("R", "usersym", [5e-6, 1e-5, 2e-5]),
     # auxiliary parameters of sim_aux (not in its parameter_keys)
     ("scale", "max", [100.0, 4.5, 50.0]),
     ("scale", "min", [0.0, 1.0]),
@@ -221,7 +222,14 @@ def rebuild_params(p, rng):
     that history-dependent attributes (init_value, stderr, correl,
     user_data) differ while value, min, max, vary, expr are equal."""
     import lmfit
-    q = lmfit.Parameters()
+    syms = {}
+    try:
+        for k_ in p._asteval.user_defined_symbols():
+            if k_ not in p:
+                syms[k_] = p._asteval.symtable[k_]
+    except Exception:
+        syms = {}
+    q = lmfit.Parameters(usersyms=syms) if syms else lmfit.Parameters()
     late = []
     for n, par in p.items():
         if par.expr is not None:
@@ -423,6 +431,23 @@ class HashWalkEngine:
                                   [1e-6, -1e-6]], 3):
                 ops.append({"op": "set", "key": "range_x", "value": rx,
                             "repr": None, "route": "setitem"})
+        if rng.random() < 0.12:
+            # a parameter that follows an lmfit user symbol, at two values
+            for v_ in rng.sample([5e-6, 1e-5, 2e-5], 2):
+                ops.append({"op": "param", "name": "R", "attr": "usersym",
+                            "value": v_})
+        if rng.random() < 0.2:
+            # a fit, then a small step of a float setting (in SI units a
+            # nanometre is small)
+            k_, a_, b_ = rng.choice([("weight_cp", 2e-6, 2.00001e-6),
+                                     ("weight_cp", 0.0, 5e-9),
+                                     ("gcf_k", 0.5, 0.500004),
+                                     ("weight_cp", 5e-7, 5.00001e-7)])
+            ops.append({"op": "set", "key": k_, "value": a_, "repr": None,
+                        "route": "setitem"})
+            ops.append({"op": "fit"})
+            ops.append({"op": "set", "key": k_, "value": b_, "repr": None,
+                        "route": rng.choice(["setitem", "fit_model"])})
         for o in ops:
             if o["op"] in ("init", "set", "pipeline", "model", "perturb") \
                     and rng.random() < (0.4 if o["op"] == "init" else 0.1):
@@ -509,6 +534,30 @@ class HashWalkEngine:
                                 continue
                             q.set(expr="", vary=False)
                             live.fit_properties["params_initial"] = p
+                            op = dict(op, attr="_done")
+                        if op["attr"] == "usersym":
+                            # the parameter follows a symbol that is not a
+                            # parameter (lmfit user symbol): its value is a
+                            # setting of its own
+                            import lmfit
+                            if q.expr not in (None, "sim_sym/2") or not (
+                                    q.min <= op["value"] <= q.max):
+                                continue
+                            p2 = lmfit.Parameters(
+                                usersyms={"sim_sym": 2 * op["value"]})
+                            for n_, q_ in p.items():
+                                if q_.expr is None or n_ == op["name"]:
+                                    p2.add(n_, value=op["value"]
+                                           if n_ == op["name"] else q_.value,
+                                           min=q_.min, max=q_.max,
+                                           vary=q_.vary)
+                            for n_, q_ in p.items():
+                                if q_.expr is not None and \
+                                        n_ != op["name"]:
+                                    p2.add(n_, expr=q_.expr, min=q_.min,
+                                           max=q_.max)
+                            p2[op["name"]].set(expr="sim_sym/2")
+                            live.fit_properties["params_initial"] = p2
                             op = dict(op, attr="_done")
                         if op["attr"] == "value" and not (
                                 q.min <= op["value"] <= q.max):
